@@ -2,6 +2,7 @@ package main
 
 import (
 	"fmt"
+	"math"
 	"sort"
 	"strconv"
 	"strings"
@@ -258,10 +259,12 @@ type runner struct {
 	hits    []corr.Hit
 	seenHit map[string]bool
 	// wide bookkeeping
-	n, u     int
-	route    []int // shard of key k (k < u)
-	shardCap int64
-	present  map[int]item // key -> entry as of the last Peek listing
+	n, u        int
+	wcap        int64
+	capOverflow bool
+	route       []int // shard of key k (k < u)
+	shardCap    int64
+	present     map[int]item // key -> entry as of the last Peek listing
 }
 
 func (r *runner) hit(key, what string) {
@@ -489,7 +492,15 @@ var methodOf = map[string]string{"set": "Set", "sia": "SetIfAbsent", "sgr": "Set
 func (r *runner) monitor(op string, args []int64, before, after snap, res string, removed []int, gotV int, gotOK, panicked bool) {
 	pkg := r.a.Pkg()
 	m := methodOf[op]
-	key := func(what string) string { return "C04:" + pkg + ":" + m + ":" + what }
+	key := func(what string) string {
+		switch what {
+		case "size-exceeds-capacity", "size-accounting", "keys-items-listing":
+			return "C04:" + pkg + ":state:" + what // one root cause, whichever method shows it first
+		case "evicts-not-least-recent", "needless-eviction", "evictions-count", "removed-list":
+			return "C04:" + pkg + ":checkCapacity:" + what
+		}
+		return "C04:" + pkg + ":" + m + ":" + what
+	}
 	ctx := fmt.Sprintf("%s %v: before %s, after %s, result %s", op, args, before, after, res)
 	if panicked {
 		r.hit(key("panics"), ctx)
@@ -727,7 +738,12 @@ func (r *runner) wnew(f []string) string {
 		return "bad-op"
 	}
 	r.mode, r.tiny, r.regime = "wide", f[1] == "tiny", c >= 0
-	r.n, r.u, r.route, r.shardCap = n, u, route, c/int64(n)+1
+	// the intended per-shard capacity capacity/shards + 1, without the int64 wrap-around
+	r.n, r.u, r.route, r.shardCap, r.wcap = n, u, route, c/int64(n), c
+	r.capOverflow = r.shardCap == math.MaxInt64
+	if !r.capOverflow {
+		r.shardCap++
+	}
 	r.present = map[int]item{}
 	opt := remap.WithPrime(uint64(n))
 	switch {
@@ -784,7 +800,11 @@ func (r *runner) wideOp(op string, args []int64) string {
 		}
 	})
 	if p {
-		if r.regime {
+		switch {
+		case r.regime && r.capOverflow:
+			// capacity >= 0, yet capacity/shards + 1 is negative: the int64 addition wrapped around
+			r.hit("C04:"+w.Pkg()+":newWideLRUCache:per-shard-capacity-overflows", fmt.Sprintf("%s %v panics: a wide cache of capacity %d on %d shard(s) gives every shard the capacity capacity/shards+1 = MinInt64 (int64 wrap-around)", op, args, r.wcap, r.n))
+		case r.regime:
 			r.hit("C04:"+w.Pkg()+":"+methodOf[op]+":panics", fmt.Sprintf("%s %v on a wide cache of %d shards", op, args, r.n))
 		}
 		return "panic"
